@@ -753,8 +753,9 @@ class Inliner:
             r = self._first_call(fi, sub, nested)
             if r is not None:
                 return r
-            if not _only_names(sub):
-                return None
+            if not _only_names(sub) and not (isinstance(sub, ast.Call) and isinstance(sub.func, ast.Name) and
+                                             sub.func.id == "super" and not sub.args and not sub.keywords):
+                return None  # (a bare super() observes nothing and changes nothing)
         return None
 
     def _inline_for_generator(self, fi, s: ast.For, nested, depth) -> Optional[List[ast.stmt]]:
